@@ -220,6 +220,10 @@ def s3(ck, an):
     alive = fw.st.slots.get("self.is_alive")
     ck.check(alive is not None and alive.key() == "False", "EFFECT", "S3.ends-dead", ft.f.short, ft.f.loc, "terminate leaves is_alive = False on every path",
              f"terminate leaves is_alive = {alive.key() if alive is not None else 'unset'}", construct="self.is_alive = False")
+    dead_nodes = {ft.node_of(s_).id for s_ in dead if ft.node_of(s_) is not None}
+    ck.check(bool(dead_nodes) and ft.cfg.every_path_from_passes(ft.cfg.entry.id, dead_nodes), "EFFECT", "S3.ends-dead-on-every-path", ft.f.short, ft.f.loc,
+             "every way out of terminate passes the store is_alive = False (no early return for never-quoted / special books)",
+             "terminate can return without marking the book dead: a discontinued contract would accept later quotes", construct="self.is_alive = False")
     for p in ("bid_price", "ask_price"):
         v = fw.st.slots.get(f"self.{p}")
         ck.check(v is None or "@v" in v.key() or "nan" in v.key(), "EFFECT", f"S3.no-price-after-death-{p}", ft.f.short, ft.f.loc,
